@@ -6,3 +6,5 @@ jsonschema.validate(json.load(open('/verif/MANIFEST.json')), json.load(open('/ro
 for f in sorted(glob.glob('/verif/evidence/*.json')):
     jsonschema.validate(json.load(open(f)), json.load(open('/root/.vp/EVIDENCE.schema.json'))); print(f,'valid')
 PY
+
+/verif/bin/govc names --check 2>&1 | tail -1
